@@ -20,6 +20,21 @@ CLAIMED = {
    note="Trusted: renderer AST->text, value/error projection, the host procedure tick!. Operand/initialiser order is not compared (at most one effectful operand). Core keywords are treated as reserved words. One known finding (atom-key capture in case).",
    technique="TLA+ abstract machine + TLC exhaustive family, replay into the implementation, TLC trace validation of random programs",
    ref="DESIGN.md section 5, C05"),
+ "C01": dict(
+   text="TLC runs every program of Programs!CoreFamily on the reference machine Machine.tla (procedure shapes with 0..3 fixed parameters with/without rest parameter x body kinds x every argument tuple over {0,2,#f}), each called through four spellings (direct, rest-parameter wrapper with car/cdr or apply, twice through apply); SpellingLaw (all spellings agree) is an invariant. Every program is replayed on the real interpreter in both define spellings, compared per top-level form on value/error kind and ticks. Seeded type-directed random programs (closures to order 3, rest parameters, internal definitions, recursion on a counter, apply, map) are recorded and validated by TLC against MachineTrace.tla.",
+   note="Trusted: renderer, projection, tick!. Operand evaluation order is not observed (at most one effectful operand). Small integers only (overflow is C09).",
+   technique="TLA+ abstract machine + TLC exhaustive family with spelling-equivalence invariant, replay, TLC trace validation",
+   ref="DESIGN.md section 5, C01"),
+ "C02": dict(
+   text="MC 1: for every composition of 15 tail contexts (depth<=1 quick, <=2 thorough) x 6 loop shapes x direct/apply call, the NON-TERMINATING loop with an abstract counter has a finite reachable state graph on Machine.tla (abstract GC) and Len(kont)<=4 in every state - bounded continuation for all iteration counts; a machine that keeps a frame for an if arm must be rejected. MC 2: the terminating members return N (TailResultLaw) and TLC prints the abstract continuation depth at every probe. Replay: every member at N=0,1,3 with rule R-space (same probe site + equal abstract continuation => native stack address within 1 KiB and live heap within 4 KiB from the second visit on), and at N=1e5 (result = N, stack spread <= 16 KiB, heap spread <= 64 KiB).",
+   note="The absolute stack/heap figures are observations of the harness (address of a local in a host procedure, per-thread counting allocator minus the harness's own logs) tied to the specification by R-space; slacks are >=100x below one frame per iteration. Non-termination and deep non-tail recursion are outside the claim.",
+   technique="TLA+ abstract machine with abstract GC: TLC finite-graph check of non-terminating loops; replay with resource refinement rule",
+   ref="DESIGN.md section 5, C02"),
+ "C08": dict(
+   text="TLC runs Programs!FaultFamily (10 faulting operations x 11 calling contexts - direct, non-tail, tail, tail under if, apply, map/for-each/fold-left callbacks, operand, inside derived forms, nested - x position) on Machine.tla; FaultLaw (the form stops with the corresponding error kind, the probe after it sees exactly the effects completed before, later forms run normally) is an invariant; every program is replayed form by form. Valid random programs with one injected fault in a sequenced position are recorded and validated by TLC against MachineTrace.tla.",
+   note="Error kinds are compared as classes (UnboundedSymbol, TypeMisMatch(Procedure), TypeMisMatch(other), ArgumentMissMatch, DivisionByZero, VectorIndexOutOfBounds, RequiresMutable); message texts are not compared.",
+   technique="TLA+ abstract machine + TLC exhaustive fault family with invariant, replay, TLC trace validation",
+   ref="DESIGN.md section 5, C08"),
 }
 PENDING_REASON = "no check is registered for this property yet: the specification module and binding for it are still being built (see DESIGN.md section 10); nothing is claimed"
 
